@@ -740,7 +740,7 @@ def never_after(ctx, body, a_blocks, b_blocks, rule, what, per_pair=False, b_des
         asig = re.sub(r"<[^<>]*>", "", callee_of(t)).split("::")[-1] if t["k"] == "call" else "assign"
         recv = ""
         if t["k"] == "call" and t["args"]:
-            ls = sorted(l for l in ctx.leaves(body.expr_operand(t["args"][0])) if re.match(r"^(self|a1)\.", l))
+            ls = sorted(l for l in ctx.leaves(body.expr_operand(t["args"][0], 0, a)) if re.match(r"^(self|a1)\.", l))
             recv = ls[0] if ls else ""
         bsig = b_desc(bb) if b_desc else body.loc(bb)
         k = (asig, recv, bsig)
@@ -861,7 +861,7 @@ def aggregates(ctx, body, adt_glob, variant=None):
             if r["k"] == "agg" and r.get("ak") == "adt" and glob(adt_glob, r["adt"]) and (variant is None or r.get("variant") == variant):
                 fields = {}
                 for name, op in zip(r.get("fields") or [], r["ops"]):
-                    fields[name] = body.expr_operand(op)
+                    fields[name] = body.expr_operand(op, 0, b)
                 out.append((b, fields, body.loc(b, i)))
     return out
 
